@@ -81,6 +81,11 @@ def gen_wide_towers(rng):
             f = gen_floor(rng, allow_tcp=False)
             if rng.random() < 0.15:
                 f = (f[0] if f[0] not in (repm.PROTO_TCP,) else 0x7F, f[1], rng.randbytes(rng.choice([16, 255, 2000])))
+            if rng.random() < 0.04 and not any(len(x[1]) + len(x[2]) > 30000 for x in floors):
+                # one floor as large as its 16-bit byte counts (and a fragment) allow: sizes at and above 2^15
+                big = rng.choice([32767, 32768, 32769, 40000])
+                f = (0x7F, rng.randbytes(big) if rng.random() < 0.3 else b"\x01", rng.randbytes(big if len(f[1]) < 100 else 5))
+                f = (0x7F, f[1] if len(f[1]) + len(f[2]) < 60000 else b"\x01", f[2])
             if rng.random() < 0.1:
                 f = (0x08, b"", rng.randbytes(2))  # a UDP floor (known protocol id, no class of its own)
             floors.append(f)
@@ -114,9 +119,17 @@ def gen_towers(rng):
     return towers
 
 
+ALLOC_HINTS = ["len", "len", "len", 0, 1, "len-4", "len+100", 2**32 - 1]
+_hint_counter = [0]
+
+
 def serve_epm_reply(stub: bytes, chunker=None):
-    """handler for the scripted endpoint-mapper connection"""
+    """handler for the scripted endpoint-mapper connection.  alloc_hint is a hint ("0 = none", and servers are not held to
+    it): it rotates through no hint, the exact size, sizes below and above."""
     state = {"n": 0}
+    _hint_counter[0] += 1
+    hint = ALLOC_HINTS[_hint_counter[0] % len(ALLOC_HINTS)]
+    hint = {"len": len(stub), "len-4": max(0, len(stub) - 4), "len+100": len(stub) + 100}.get(hint, hint)
 
     def h(data):
         i = state["n"]
@@ -124,7 +137,7 @@ def serve_epm_reply(stub: bytes, chunker=None):
         if i == 0:
             return [rrpc.encode(dict(ptype=rrpc.BIND_ACK, flags=FL, call_id=tr.call_id_of(data), auth=None, max_xmit=5840, max_recv=5840, assoc=1, sec_addr="135", results=[(0, 0, rrpc.NDR64[0], 1)]))]
         h.last = True
-        raw = rrpc.header(rrpc.RESPONSE, FL, 24 + len(stub), 0, tr.call_id_of(data)) + struct.pack("<IHBB", len(stub), 0, 0, 0) + stub
+        raw = rrpc.header(rrpc.RESPONSE, FL, 24 + len(stub), 0, tr.call_id_of(data)) + struct.pack("<IHBB", hint, 0, 0, 0) + stub
         return [raw]
 
     h.last = False
